@@ -8,7 +8,7 @@ solver bytes; the decoded (kind, name, filename, payload) list must equal what w
 from __future__ import annotations
 
 from harness.c01 import decode
-from symex.poly import pall_in, pand, pconcat, pcontains, peq, pimplies, plen, pnone_in, pnot, por
+from symex.poly import pall_in, pand, pconcat, pcontains, peq, pimplies, plen, pnone_in, pnot, por, pstartswith
 
 PROPERTY = "C02"
 BOUNDS = {
@@ -18,7 +18,7 @@ BOUNDS = {
 }
 STUBS = ["urllib.parse.quote / unquote on solver text: per-byte / scan models (the real functions are table lookups that fork once per table entry); validated natively on every path. urllib.parse.urlencode, quote_plus and parse_qsl are interpreted from the stdlib source"]
 ASSUMPTIONS = ["names exclude the double quote, backslash, CR, LF and '%22' (the header syntax cannot carry them), as the property states",
-               "payloads do not contain '--' + boundary (no encoder can carry a delimiter look-alike)"]
+               "payloads do not hold '--' + boundary at the start of a line (no encoder can carry a delimiter look-alike); in the middle of a line it is allowed"]
 OUTSIDE = ["urlencoded keys/values longer than 2 (3) code points or above U+07FF; FormDataParser's stream reading of urlencoded bodies", "EnvironBuilder / test client plumbing (temp files, random boundary)", "code points above U+07FF in names",
            "field values longer than 2 (3) code points through MultiPartParser"]
 
@@ -49,7 +49,12 @@ def body_roundtrip(I, X, shape="field", n=2, nn=1, boundary="b", chunk=0, name_s
             X.assume(pnot(pcontains(name, "%22")))
             shared_name = name
         payload = X.bytes(f"payload{i}", n, minlen=n)
-        X.assume(pnot(pcontains(payload, b"--" + bnd)))
+        # a delimiter look-alike is '--boundary' at the start of a line: at the very start of the
+        # payload (the encoder's line break precedes it) or after a line break inside it.
+        # '--boundary' in the middle of a line is ordinary data and must survive
+        X.assume(pnot(pstartswith(payload, b"--" + bnd)))
+        for lb in (b"\n", b"\r"):
+            X.assume(pnot(pcontains(payload, lb + b"--" + bnd)))
         filename = None
         if kind == "file":
             filename = X.str(f"fn{i}", nn, minlen=nn, maxcp=0x7FF)
@@ -189,6 +194,9 @@ def obligations(tier, seed):
             out.append({"name": f"roundtrip[{shape},names={skel!r}]", "body": "body_roundtrip",
                         "params": {"shape": shape, "n": 1, "nn": 2, "boundary": "b", "name_skel": skel},
                         "opts": {"budget_s": 900, "ctx": {"max_cp": 0x7FF}}})
+    # a payload long enough to hold '--b' in the middle of a line
+    out.append({"name": "roundtrip[file,boundary=b,payload=4,names=1]", "body": "body_roundtrip",
+                "params": {"shape": "file", "n": 4, "nn": 1, "boundary": "b"}, "opts": {"budget_s": 900, "ctx": {"max_cp": 0x7FF}}})
     for shape in SHAPES:
         for boundary in ("b", "xyz"):
             for n in ([0, 1, 3] if quick else [0, 1, 2, 3, 4]):
